@@ -1,7 +1,7 @@
 (* Non-vacuity for C03: the "idx" wiring of the harness passes the well-formedness check for its
    unique indexes, and a concrete history exercises hand-over and swap of unique values. *)
 From Coq Require Import List NArith Bool.
-From Storage Require Import Base.Bytes Store.Model Store.WfSchema.
+From Storage Require Import Base.Bytes Store.Model Store.WfSchema Store.WfSetIdx Store.UniqueProofs Store.UniqueRejectProofs.
 Import ListNotations.
 Open Scope N_scope.
 
@@ -58,3 +58,125 @@ Example hist_dup_rejected :
   | (rs, committed, _, _) => rs = [Some EDuplicate] /\ committed = false
   end.
 Proof. vm_compute. split; reflexivity. Qed.
+
+(* ---------------------------------------------------------------- set indexes *)
+Example idx_schema_wf_roles : wf_setidx_b idx_schema n_emp n_roles = true.
+Proof. vm_compute. reflexivity. Qed.
+Example idx_schema_wf_tagsx : wf_setidx_b idx_schema n_dept n_tagsx = true.
+Proof. vm_compute. reflexivity. Qed.
+(* the check does reject a set field that is also a back-reference set or a link field *)
+Example idx_schema_wf_reports_rejected : wf_setidx_b
+  (map (fun d => if str_eqb (sd_name d) n_emp then mkSdef (sd_name d) (sd_parent d) (sd_ext d) (sd_fields d) (sd_sets d)
+                   (CSetIdx n_reports :: sd_cons d) (sd_links d) else d) idx_schema) n_emp n_reports = false.
+Proof. vm_compute. reflexivity. Qed.
+
+(* a history on the roles index: a{r,q} b{r} ; a drops q (the bucket q becomes empty and disappears) and
+   gains p ; a rejected create (empty role) ; delete b ; a field-restricted update that skips roles *)
+Definition mk_emp_r (i nm : str) (roles : list str) : op :=
+  OCreate n_emp i false [(n_name, Some nm); (n_nick, None); (n_boss, None); (n_deptf, Some [100])] [(n_roles, roles)].
+Definition up_roles (i : str) (roles : list str) : op :=
+  OUpdate n_emp i [] [(n_roles, roles)] (Some [n_roles]).
+Definition shist : list tx :=
+  [ mkTx false [] [OCreate n_dept [100] false [(n_title, Some [116])] [(n_tagsx, [])]] false;
+    mkTx false [] [mk_emp_r [97] [120] [[114]; [113]]; mk_emp_r [98] [121] [[114]]] false;
+    mkTx false [] [up_roles [97] [[114]; [112]]] false;
+    mkTx false [] [mk_emp_r [99] [122] [[114]; []]] false;          (* empty role: rejected, rolled back *)
+    mkTx false [] [ODelete n_emp [98]] false;
+    mkTx false [] [up_name [97] [119]] false ].
+
+Example shist_index_before : sidx (run_txs idx_schema 8 st_empty (firstn 2 shist)) n_emp n_roles
+                             = [([113], [[97]]); ([114], [[97]; [98]])].
+Proof. vm_compute. reflexivity. Qed.
+(* the key q ([113]) is gone, not left with an empty list *)
+Example shist_bucket_disappears : sidx (run_txs idx_schema 8 st_empty (firstn 3 shist)) n_emp n_roles
+                             = [([112], [[97]]); ([114], [[97]; [98]])].
+Proof. vm_compute. reflexivity. Qed.
+Example shist_empty_role_rejected :
+  match run_tx idx_schema 8 (run_txs idx_schema 8 st_empty (firstn 3 shist)) (mkTx false [] [mk_emp_r [99] [122] [[114]; []]] false) with
+  | (rs, committed, _, _) => rs = [Some EOther] /\ committed = false
+  end.
+Proof. vm_compute. split; reflexivity. Qed.
+Example shist_index_final : sidx (run_txs idx_schema 8 st_empty shist) n_emp n_roles
+                             = [([112], [[97]]); ([114], [[97]])].
+Proof. vm_compute. reflexivity. Qed.
+Example shist_sets_final : get_set idx_schema (run_txs idx_schema 8 st_empty shist) n_emp [97] n_roles = [[112]; [114]].
+Proof. vm_compute. reflexivity. Qed.
+
+(* ---------------------------------------------------------------- uniqueness is enforced *)
+(* after the first three transactions of [hist]: a holds name z, b holds name x *)
+Definition st3 : state := run_txs idx_schema 8 st_empty (firstn 3 hist).
+
+(* creating c with name x is a duplicating operation in the sense of the theorems ... *)
+Example dup_create_is_dup_op : dup_op idx_schema n_emp n_name st3 (mk_emp [99] [120]).
+Proof.
+  split; [vm_compute; reflexivity|]. exists [120]. split; [|vm_compute; reflexivity].
+  split; [reflexivity|]. exists [98]. split; [intros H; discriminate|]. split; vm_compute; reflexivity.
+Qed.
+(* ... all the "no earlier check fails" premises of unique_duplicate_rejected_create hold for it
+   (name's unique index is registered first, so [before_unique] is empty) ... *)
+Example dup_create_premises :
+  nonempty [99] = true /\ present idx_schema st3 n_emp [99] = false /\ key_ok [99] = true /\
+  fire_cu idx_schema (mkOctx false []) [] n_emp Created [99] = Ok [mkEvent n_emp Created [99] false] /\
+  before_unique n_name (cons_of idx_schema n_emp) = [].
+Proof. vm_compute. repeat split; reflexivity. Qed.
+(* ... and the operation indeed answers EDuplicate *)
+Example dup_create_result :
+  run_op idx_schema 8 (mkOctx false []) (st3, []) (mk_emp [99] [120]) = Err EDuplicate.
+Proof. vm_compute. reflexivity. Qed.
+
+(* renaming b to z (held by a) through a field-restricted update is a duplicating operation, too *)
+Example dup_update_is_dup_op : dup_op idx_schema n_emp n_name st3 (up_name [98] [122]).
+Proof.
+  split; [vm_compute; reflexivity|]. exists [122]. split; [|vm_compute; reflexivity].
+  split; [reflexivity|]. exists [97]. split; [intros H; discriminate|]. split; vm_compute; reflexivity.
+Qed.
+Example dup_update_result :
+  run_op idx_schema 8 (mkOctx false []) (st3, []) (up_name [98] [122]) = Err EDuplicate.
+Proof. vm_compute. reflexivity. Qed.
+(* a transaction that first does valid work and then hits the duplicate leaves the state untouched *)
+Example dup_tx_changes_nothing :
+  match run_tx idx_schema 8 st3 (mkTx false [] [mk_emp [100] [119]; up_name [98] [122]; mk_emp [101] [118]] false) with
+  | (rs, committed, st', evs) => rs = [None; Some EDuplicate] /\ committed = false /\ evs = [] /\
+        uidx st' n_emp n_name = uidx st3 n_emp n_name /\ ids_of st' n_emp = ids_of st3 n_emp
+  end.
+Proof. vm_compute. repeat split; reflexivity. Qed.
+(* several constraints object (name x is held by b; the non-nullable fk index on dept gets an empty
+   value): the one registered first - name's unique index - is the one that reports *)
+Example dup_first_index_reports :
+  run_op idx_schema 8 (mkOctx false []) (st3, [])
+    (OCreate n_emp [99] false [(n_name, Some [120]); (n_nick, None); (n_boss, None); (n_deptf, Some [])] [(n_roles, [])])
+  = Err EDuplicate /\
+  run_op idx_schema 8 (mkOctx false []) (st3, [])
+    (OCreate n_emp [99] false [(n_name, Some [119]); (n_nick, None); (n_boss, None); (n_deptf, Some [])] [(n_roles, [])])
+  = Err EOther.
+Proof. vm_compute. split; reflexivity. Qed.
+
+(* name is a non-nullable unique index: hypotheses of nonnull_unique_never_empty *)
+Example name_is_nonnull_unique : In (CUnique n_name false) (cons_of idx_schema n_emp).
+Proof. vm_compute. left. reflexivity. Qed.
+(* an empty name is refused (create and update) ... *)
+Example empty_name_rejected :
+  run_op idx_schema 8 (mkOctx false []) (st3, []) (mk_emp [99] []) = Err EOther /\
+  run_op idx_schema 8 (mkOctx false []) (st3, []) (up_name [98] []) = Err EOther.
+Proof. vm_compute. split; reflexivity. Qed.
+(* ... while the nullable nick index accepts nil values of several entities (no false duplicate) *)
+Example nil_nicks_coexist :
+  uidx st3 n_emp n_nick = [] /\ ids_of st3 n_emp = [[97]; [98]].
+Proof. vm_compute. split; reflexivity. Qed.
+
+(* ---------------------------------------------------------------- the well-formedness hypothesis is needed *)
+(* a set index declared on the back-reference set "reports" (maintained by the fk index on boss, not by
+   PersistEntity) is NOT kept in step: [wf_setidx_b] rejects this schema (idx_schema_wf_reports_rejected)
+   and indeed the mirror statement fails on it *)
+Definition bad_schema : schema :=
+  map (fun d => if str_eqb (sd_name d) n_emp then mkSdef (sd_name d) (sd_parent d) (sd_ext d) (sd_fields d) (sd_sets d)
+                   (CSetIdx n_reports :: sd_cons d) (sd_links d) else d) idx_schema.
+Definition bad_hist : list tx :=
+  [ mkTx false [] [OCreate n_dept [100] false [(n_title, Some [116])] [(n_tagsx, [])]] false;
+    mkTx false [] [mk_emp [97] [120]] false;
+    mkTx false [] [OCreate n_emp [98] false [(n_name, Some [121]); (n_nick, None); (n_boss, Some [97]); (n_deptf, Some [100])] [(n_roles, [])]] false ].
+Example set_index_on_backref_set_not_mirrored :
+  let st := run_txs bad_schema 8 st_empty bad_hist in
+  wf_setidx_b bad_schema n_emp n_reports = false /\
+  get_set bad_schema st n_emp [97] n_reports = [[98]] /\ sidx st n_emp n_reports = [].
+Proof. vm_compute. repeat split; reflexivity. Qed.
